@@ -44,6 +44,7 @@ def h_ops(ctx, mods, shape):
         fail = {'at': tuple(shape['fail']), 'reason': ctx.bytes('reason', 2)}
     st = Std(ctx, maxdata=shape['maxdata'], monitor=mon, packetize=packetize, reorder=reorder, fail=fail)
     st.dev.eager = bool(shape.get('eager'))
+    st.truncate_recv = shape.get('truncate_recv')
     w = World(ctx, mods, st.dev, impl=shape['impl'])
     o = w.try_call('connect')
     if not o.ok:
@@ -98,6 +99,9 @@ def shapes(tier, seed):
         # a host-initiated close while the device still has data in flight (local sink fails at the j-th write)
         for j in (1, 2):
             out.extend({'h': 'ops', 'impl': impl, 'maxdata': 4096, 'ops': [['pull', {'dest': 'failing', 'fail_at': j, 'recs': [2, 2, 1]}]], 'cuts': 2, 'judge': False, 'eager': e} for e in (False, True))
+        # the device closes the stream in the middle of a pull (after a partial sync record)
+        for cut in (3, 10, 13):
+            out.append({'h': 'ops', 'impl': impl, 'maxdata': 4096, 'ops': [['pull', {'recs': [4, 2]}]], 'cuts': 0, 'judge': False, 'truncate_recv': cut})
         # several streams open at once (generators stepped alternately): every interleaving, device order free
         out.append({'h': 'interleave', 'judge_results': False, 'impl': impl, 'gens': [[1, 1], [1]], 'pick': True})
         out.append({'h': 'interleave', 'judge_results': False, 'impl': impl, 'gens': [[1, 1], [1, 1]], 'pick': False})
